@@ -60,6 +60,11 @@ def grid(seed, dname, paths=None):
             tests.append({"op": "decr", "c": path, "d": dname, "k": k, "delta": 50})
             k = fresh(st)
             tests.append({"op": "del", "c": path, "d": dname, "k": k})
+        # Lock with a timeout: the embedded and cluster clients send PX <ms>; over raw RESP both PX and EX <seconds> exist
+        if path != "pipe":
+            for form in ([{}, {"ex": 1}] if path.startswith("raw") else [{}]):
+                k = fresh("absent")
+                tests.append(dict({"op": "lock", "c": path, "d": dname, "k": k, "ms": 60500, "dl": 20, "tok": "%s-l%d" % (dname, n)}, **form))
         # multi-key delete spread over owners
         ks = []
         for j in range(6):
@@ -72,7 +77,9 @@ def grid(seed, dname, paths=None):
     ops = setup + [{"op": "sleep", "ms": 150 + 2 * dmaplib.MARGIN + 60}]
     for t in tests:
         ops.append(t)
-        if t["op"] != "mdel":
+        if t["op"] == "lock":
+            ops.append({"op": "dump", "d": dname, "k": t["k"]})
+        elif t["op"] != "mdel":
             ops.append({"op": "get", "c": "emb@owner", "d": dname, "k": t["k"]})
             ops.append({"op": "dump", "d": dname, "k": t["k"]})
     ops += finals
